@@ -9,7 +9,7 @@ CONSTANTS
   VBufs <- MC_None
   MFmts <- MC_None
   VSizes = {0}
-  Extra = {"getiter", "calliter", "close", "readline", "seek0"}
+  Extra = {"getiter", "calliter", "iterarg", "close", "readline", "seek0"}
   Naive = FALSE
   Gen = TRUE
 VIEW genview
